@@ -254,6 +254,7 @@ pub fn gen_spec(rng: &mut Rng, rich: bool) -> ElfSpec {
             5 => 0xfff,
             6 => 1,
             7 => 0x3000,
+            8 => 0, // an empty PT_LOAD (p_filesz = p_memsz = 0): legal, occupies nothing
             _ => rng.range(1, 0x1800),
         };
         let voff = if rich && rng.below(3) == 0 { rng.below(0x1000 - (memsz & 0xfff).min(0xfff)).min(0xff0) } else { 0 };
@@ -282,7 +283,8 @@ pub fn gen_spec(rng: &mut Rng, rich: bool) -> ElfSpec {
         let align = if rich { *rng.pick(&[0x1000u64, 0x1000, 0x1000, 0, 1, 0x10, 0x100, 0x800]) } else { 0x1000 };
         segs.push(Seg { flags, vaddr, data, memsz, paddr, align });
         // next segment: on a distinct page, sometimes the very next one
-        let span_pages = (voff + memsz + 0xfff) / 0x1000;
+        // an empty segment occupies no page, but it still gets a page of its own: nothing else is placed around its address
+        let span_pages = ((voff + memsz + 0xfff) / 0x1000).max(1);
         page += span_pages + if rich { *rng.pick(&[0u64, 0, 1, 2, 16]) } else { 1 + rng.below(4) };
     }
     let mut order: Vec<usize> = (0..segs.len()).collect();
